@@ -193,6 +193,19 @@ static enum cc_stat make_mid_subtree(
     return CC_OK;
 }
 
+/**
+ * Frees a chain of nodes built by make_mid_subtree that has not been
+ * linked into the tree.
+ */
+static void destroy_mid_subtree(CC_TSTTable *table, CC_TSTTableNode *begin)
+{
+    while (begin) {
+        CC_TSTTableNode *next = begin->mid;
+        table->mem_free(begin);
+        begin = next;
+    }
+}
+
 
 /**
  * Creates a new key-value mapping in the specified CC_TSTTable. If the unique key
@@ -239,14 +252,18 @@ enum cc_stat cc_tsttable_add(CC_TSTTable *table, char *key, void *val)
 
     enum cc_stat status = make_mid_subtree(table, &begin, &end, postfix, postfix_len);
 
-    if (status != CC_OK)
+    if (status != CC_OK) {
+        destroy_mid_subtree(table, begin);
         return CC_ERR_ALLOC;
+    }
 
     begin->parent = last_parent;
     end->data     = table->mem_alloc(sizeof(CC_TSTTableEntry));
 
-    if (!end->data)
+    if (!end->data) {
+        destroy_mid_subtree(table, begin);
         return CC_ERR_ALLOC;
+    }
 
     table->size      += 1;
     end->data->key    = key;
